@@ -41,6 +41,13 @@ Extension families (reduced alphabets, see ``alphabet``)
   non-integer time type ``fractions.Fraction`` (times -2/3, 0, 1/3, 1, 5/2).
 * after every read, failing read and inspect the shared time must be unchanged in value and type.
 
+* nested generators (bounded/c19_nest.py, core in bounded/c19_nest_core.py): a time-dependent random generator
+  whose own numeric parameters are time-dependent random generators (generated trees of depth 1 and 2 over
+  UniformRandom / NormalRandom / UniformRandomOffset) x histories of jumps, reads of the parameter, direct calls of
+  the generator, reads and direct calls of the operands, inspects, on two instances (fresh tree per instance or
+  the tree as class default); every value is compared with G(node, t) of a separate fresh subtree and with a
+  plain-Python model of the distribution formula over the operands' values and the node's own draw at t.
+
 Scope: only well-nested histories (no pop without push, no exit without enter); blocks still open
 at the end of a history are closed normally (and checked).  Instance 2 is only used after
 instance 1 (the instances are created identically, so this is a pure symmetry reduction).
@@ -892,6 +899,11 @@ def run(tier, seed):
             witness = "%s cfg=%d install=%s hist=%s" % (fields, cfgid, install, ";".join(op_text(o) for o in h))
             B.violation(clause=clause, witness=witness, detail=detail,
                         replay=make_replay(cfgid, install, h, check, clause, witness))
+        # family "nested generators" (generator-valued parameters of generators x read orders x instances x
+        # repeated reads at one time): bounded/c19_nest.py, core shared with its replays in bounded/c19_nest_core.py
+        from bounded import c19_nest
+        nested = c19_nest.extend(B, tier, seed)
+        B._distinct = set(range(ndistinct + nested))
     finally:
         param.Dynamic.time_dependent = saved_td
         tm(saved_time)
